@@ -14,6 +14,7 @@ package vm
 //     visit j act on that loop.
 
 import (
+	"fmt"
 	"math"
 	"reflect"
 
@@ -475,5 +476,108 @@ func ZZ_C08_forin_corner_entries() {
 			x1, ok1 := got[1].v.(int64)
 			zz.Assert(ok0 && ok1 && x0 == v0 && x1 == v1, "C08.for-in-slice/loop-variable-holds-the-value")
 		}
+	}
+}
+
+// ZZ_C08_forin_long: loops whose trip counts reach past every integer constant
+// written in the interpreter's own source (zzCodeConsts is regenerated from
+// /repo on every run: cache bounds, chunk sizes, poll intervals).  Lengths
+// c-1, c, c+1 and 2c+1 for each constant c; the loop is left by break, by
+// return from the enclosing function, skips by continue, or runs to its end;
+// the exit position is one of the second, middle and next-to-last
+// elements.  The number of body executions and the last element seen are
+// compared with the plain Go loop.
+func ZZ_C08_forin_long() {
+	var lens []int
+	for _, c := range zzCodeConsts {
+		for _, n := range []int{c - 1, c, c + 1, 2*c + 1} {
+			if n > 3 && n <= 9000 {
+				dup := false
+				for _, m := range lens {
+					dup = dup || m == n
+				}
+				if !dup {
+					lens = append(lens, n)
+				}
+			}
+		}
+	}
+	if len(lens) == 0 {
+		return
+	}
+	n := lens[zz.Choose(len(lens))]
+	at := []int{1, n / 2, n - 2}[zz.Choose(3)]
+	exit := zz.Choose(4)
+	kind := zz.Choose(4)
+	if kind >= 2 && n > 600 {
+		return // (maps and channels: the shorter lengths)
+	}
+	e := env.NewEnv()
+	switch kind {
+	case 0:
+		c := make([]interface{}, n)
+		for i := range c {
+			c[i] = int64(i)
+		}
+		e.Define("c", c)
+	case 1:
+		c := make([]int64, n)
+		for i := range c {
+			c[i] = int64(i)
+		}
+		e.Define("c", c)
+	case 2:
+		c := make(chan int64, n)
+		for i := 0; i < n; i++ {
+			c <- int64(i)
+		}
+		close(c)
+		e.Define("c", c)
+	case 3:
+		// a counting loop (the C-style and the condition loop have no container)
+		e.Define("c", nil)
+	}
+	e.Define("at", int64(at))
+	e.Define("n", int64(n))
+	head := "for x in c {"
+	tail := "}"
+	if kind == 3 {
+		head = "for x = 0; x < n; x++ {"
+	}
+	var src string
+	var wantRuns, wantLast int64
+	switch exit {
+	case 0:
+		src = "runs = 0; last = -1; " + head + " if x == at { break }; runs++; last = x " + tail + "; [runs, last]"
+		wantRuns, wantLast = int64(at), int64(at-1)
+	case 1:
+		src = "runs = 0; last = -1; f = func() { " + head + " if x == at { return 0 }; runs++; last = x " + tail + "; return 1 }; r = f(); [runs, last, r]"
+		wantRuns, wantLast = int64(at), int64(at-1)
+	case 2:
+		src = "runs = 0; last = -1; " + head + " if x == at { continue }; runs++; last = x " + tail + "; [runs, last]"
+		wantRuns, wantLast = int64(n-1), int64(n-1)
+	case 3:
+		src = "runs = 0; last = -1; " + head + " runs++; last = x " + tail + "; [runs, last]"
+		wantRuns, wantLast = int64(n), int64(n-1)
+	}
+	id := []string{"[]interface{}", "[]int64", "chan", "c-style"}[kind] + "/" + []string{"break", "return", "continue", "to-the-end"}[exit]
+	zz.Budget(400000000)
+	v, err := Execute(e, &Options{Debug: false}, src)
+	zz.Assertf(err == nil, "C08.for-in-long/no-error/"+id, src)
+	if err != nil {
+		return
+	}
+	l, ok := v.([]interface{})
+	zz.Assertf(ok && len(l) >= 2, "C08.for-in-long/result-shape/"+id, src)
+	if !ok || len(l) < 2 {
+		return
+	}
+	runs, _ := l[0].(int64)
+	last, _ := l[1].(int64)
+	zz.Assertf(runs == wantRuns, "C08.for-in-long/body-runs-exactly-while-the-loop-lasts/"+id, fmt.Sprintf("n=%d at=%d runs=%d want %d", n, at, runs, wantRuns))
+	zz.Assertf(last == wantLast, "C08.for-in-long/elements-in-order-up-to-the-exit/"+id, fmt.Sprintf("n=%d at=%d last=%d want %d", n, at, last, wantLast))
+	if exit == 1 && len(l) == 3 {
+		r, _ := l[2].(int64)
+		zz.Assertf(r == 0, "C08.for-in-long/return-ends-the-function/"+id, src)
 	}
 }
